@@ -507,9 +507,23 @@ impl ProcHarness {
         }
         let vid = node_id_of(run, victim);
         let kill_ev = run.events.iter().rposition(|e| e.child == victim).unwrap_or(0);
+        // second dead process (the cleaner of the cleaner-death scenario)
+        let cleaner_killed: Option<usize> = run.killed.iter().find(|k| k.0 != victim).map(|k| k.0);
+        if plan.p("cleaner") > 0 {
+            match run.killed.iter().find(|k| k.0 != victim) {
+                Some(k) => {
+                    probes.push(("cleaner_killed_inside_cleanup", 1));
+                    let name: &'static str = Box::leak(format!("cleaner_killed_at_{}", k.2).into_boxed_str());
+                    probes.push((name, 1));
+                }
+                None => probes.push(("cleaner_finished_before_its_kill_point", 1)),
+            }
+        }
+        let vid2 = cleaner_killed.and_then(|c| node_id_of(run, c));
         // the lifecycle operation the victim was executing when it was killed
         let phase: String = run.obs.iter().filter(|o| o.0 == victim && o.1.starts_with("phase ")).last().map(|o| o.1.split(' ').nth(2).unwrap_or("?").to_string()).unwrap_or_else(|| "start".into());
-        let vk = |class: &str, msg: String| -> Option<Violation> { viol(&format!("{class}@{phase}"), msg) };
+        let suffix = if cleaner_killed.is_some() { "+cleaner-killed" } else { "" };
+        let vk = |class: &str, msg: String| -> Option<Violation> { viol(&format!("{class}@{phase}{suffix}"), msg) };
         // errors of a survivor count once the dead node has been cleaned up (before that HangsInCreation,
         // DoesNotExist, ... are the documented answers to a half created or half removed service)
         let first_cleanup_done: usize = run.obs.iter().filter(|o| o.0 != victim && o.2 > kill_ev && (o.1.ends_with(" ok") || o.1.ends_with(" already")) && o.1.starts_with("cleanup ")).map(|o| o.2).min().unwrap_or(usize::MAX);
@@ -517,7 +531,7 @@ impl ProcHarness {
         let mut cleanup_seen_ok = false;
         let mut last_list: Option<String> = None;
         for (child, text, evidx) in run.obs.iter() {
-            if *child == victim || *evidx <= kill_ev {
+            if *child == victim || *evidx <= kill_ev || Some(*child) == cleaner_killed {
                 continue;
             }
             if text.starts_with("list ") {
@@ -549,9 +563,18 @@ impl ProcHarness {
                 return (vk("cleanup-incomplete", format!("cleanup reported success but the killed node {vid} is still listed as Dead: {l}")), probes);
             }
         }
+        if let (Some(v2), Some(l)) = (&vid2, &last_list) {
+            if l.contains(&format!("{v2}:Alive")) {
+                return (vk("dead-node-reported-alive", format!("the last node list of the survivor still shows the killed cleaner's node {v2} as Alive: {l}")), probes);
+            }
+            if l.contains(&format!("{v2}:Dead")) && cleanup_seen_ok {
+                return (vk("cleanup-incomplete", format!("cleanup reported success but the killed cleaner's node {v2} is still listed as Dead: {l}")), probes);
+            }
+        }
         // the shared service is usable: the survivor's final round trip
-        let sent_ok = run.obs.iter().any(|(c, t, e)| *c != victim && *e > kill_ev && t.starts_with("sent "));
-        let recv_ok = run.obs.iter().any(|(c, t, e)| *c != victim && *e > kill_ev && t.starts_with("received true"));
+        let alive = |c: usize| c != victim && Some(c) != cleaner_killed;
+        let sent_ok = run.obs.iter().any(|(c, t, e)| alive(*c) && *e > first_cleanup_done.min(usize::MAX - 1) && t.starts_with("sent "));
+        let recv_ok = run.obs.iter().any(|(c, t, e)| alive(*c) && *e > kill_ev && t.starts_with("received true"));
         if plan.p("roundtrip") != 0 && sent_ok && !recv_ok {
             return (vk("service-unusable", "after the crash and cleanup a survivor's fresh subscriber received nothing from a survivor's publisher".into()), probes);
         }
@@ -578,7 +601,9 @@ impl ProcHarness {
                     created_by_victim.push(e.detail.clone());
                 }
             }
-            let touched_by_others: Vec<&String> = run.events.iter().filter(|e| e.child != victim && !e.detail.is_empty() && (e.kind.starts_with("open") || e.kind.starts_with("shm_open"))).map(|e| &e.detail).collect();
+            // "others" are the processes that are still alive: what a killed cleaner touched is as orphaned as
+            // what the victim created
+            let touched_by_others: Vec<&String> = run.events.iter().filter(|e| e.child != victim && Some(e.child) != cleaner_killed && !e.detail.is_empty() && (e.kind.starts_with("open") || e.kind.starts_with("shm_open"))).map(|e| &e.detail).collect();
             let left = leftovers("pr", owner_pid);
             let mut bad = Vec::new();
             for c in created_by_victim.iter() {
@@ -684,6 +709,57 @@ impl Harness for ProcHarness {
             }
             params.insert("victim".into(), 0);
             params.insert("kill".into(), r.chance(0.7) as i64);
+        } else if r.chance(0.3) {
+            // cleaner death: the victim is killed while it idles (node, service, port exist; the base case that
+            // cleans up without residue), a cleaner starts to remove its stale resources and is itself killed
+            // at a sampled yield inside that cleanup; the survivor must finish both
+            let mut v = vec![("node", 0), ("pubsub", 1)];
+            v.push(if r.chance(0.5) { ("publisher", 0) } else { ("subscriber", 0) });
+            if r.chance(0.5) {
+                v.push(("event", 2));
+                v.push(("notifier", 0));
+            }
+            v.push(("hold", 1));
+            v.push(("dropall", 0));
+            threads.push(ops(&v));
+            let shares = r.chance(0.7);
+            let mut s = vec![("node", 0)];
+            if shares {
+                s.push(("pubsub", 1));
+                s.push(("publisher", 0));
+                s.push(("send", 0));
+            }
+            // the survivor races the cleaner for the cleanup in half of the runs (the loser must leave the dead
+            // node collectable for whoever comes next, the winner may die)
+            if r.chance(0.5) {
+                s.push(("hold", 4000));
+                s.push(("cleanup", 0));
+            }
+            s.push(("hold", 9000));
+            s.push(("list", 0));
+            s.push(("cleanup", 0));
+            s.push(("hold", 10));
+            s.push(("cleanup", 0));
+            s.push(("hold", 3000));
+            s.push(("cleanup", 0));
+            s.push(("list", 0));
+            s.push(("pubsub", 1));
+            s.push(("publisher", 0));
+            s.push(("subscriber", 0));
+            s.push(("send", 0));
+            s.push(("recv", 0));
+            s.push(("dropall", 0));
+            s.push(("node", 0));
+            s.push(("recreate", 1));
+            threads.push(ops(&s));
+            // the cleaner: waits until the victim is long dead, then cleans up
+            threads.push(ops(&[("node", 0), ("hold", 4000), ("list", 0), ("cleanup", 0), ("hold", 1), ("dropall", 0)]));
+            params.insert("victim".into(), 0);
+            params.insert("victim2".into(), 102);
+            params.insert("cleaner".into(), 2);
+            params.insert("kill2_permille".into(), r.range(0, 999));
+            params.insert("kill".into(), 1);
+            params.insert("roundtrip".into(), 1);
         } else {
             // P0 victim: one lifecycle segment on a pub/sub (and event) service; P1 survivor sharing the service
             let seg = r.range(0, 4);
@@ -755,7 +831,44 @@ impl Harness for ProcHarness {
             Decisions::Seeded(seed) => {
                 let mut d = Decider::seeded(seed);
                 d.sticky = cfg.sticky;
-                if plan.p("kill") != 0 {
+                if plan.p("kill") != 0 && plan.p("cleaner") > 0 {
+                    let victim = plan.p("victim") as usize;
+                    let cleaner = plan.p("cleaner") as usize;
+                    // dry run 1 (no kill): the victim's idle point = its last "sleep" yield
+                    let mut dry = Decider::seeded(seed);
+                    dry.sticky = cfg.sticky;
+                    let dry1 = run_proc(&roles, &cm, &mut dry, cfg.step_cap, &normalise);
+                    remove_leftovers("pr", owner_pid);
+                    let mut vy = 0u64;
+                    let mut idle = None;
+                    for e in dry1.events.iter() {
+                        if e.child == victim {
+                            vy += 1;
+                            if e.kind == "sleep" {
+                                idle = Some(vy);
+                            }
+                        }
+                    }
+                    if let Some(k) = idle {
+                        d.kill_at.insert(victim, k);
+                        // dry run 2 (victim killed): the cleaner's yields inside its cleanup call
+                        let mut dry = Decider::seeded(seed);
+                        dry.sticky = cfg.sticky;
+                        dry.kill_at.insert(victim, k);
+                        let dry2 = run_proc(&roles, &cm, &mut dry, cfg.step_cap, &normalise);
+                        remove_leftovers("pr", owner_pid);
+                        let start = dry2.obs.iter().find(|o| o.0 == cleaner && o.1.starts_with("phase ") && o.1.ends_with(" cleanup")).map(|o| o.2);
+                        if let Some(start) = start {
+                            let end = dry2.obs.iter().find(|o| o.0 == cleaner && o.2 > start && o.1.starts_with("phase ")).map(|o| o.2).unwrap_or(dry2.events.len());
+                            let y = |upto: usize| dry2.events.iter().take(upto + 1).filter(|e| e.child == cleaner).count() as u64;
+                            let (ys, ye) = (y(start), y(end));
+                            if ye > ys + 1 {
+                                let k2 = ys + 1 + (plan.p("kill2_permille") as u64 * (ye - ys - 1)) / 1000;
+                                d.kill_at.insert(cleaner, k2);
+                            }
+                        }
+                    }
+                } else if plan.p("kill") != 0 {
                     // dry run without kill to learn how many yields the victim has (same seed => same schedule prefix)
                     let mut dry = Decider::seeded(seed);
                     dry.sticky = cfg.sticky;
